@@ -3,8 +3,9 @@
 // Pasted verbatim from /repo/src/ctap1.rs on every run: `pub enum Request<'a>`,
 // `pub enum Response`, `pub trait Authenticator { .. }` (with the default methods `version`
 // and `call_ctap1`), the blanket `impl Rpc<..> for A`; `pub trait Rpc` from src/lib.rs.
-// Same ghost-state contract as unit c10_dispatch_ctap2.  (`version()` carries no contract here: Verus does
-// not interpret byte-string literals; the six version bytes are checked by the Kani harness c10_k_ctap1_version.)
+// Same ghost-state contract as unit c10_dispatch_ctap2.  (the default body of `version()` is dropped in this unit — Verus does
+// not interpret byte-string literals; its six bytes are checked by the Kani harness c10_k_ctap1_version — and its
+// declaration gets the contract `r == Self::out_version()`, so that the Version arm must call it.)
 use vstd::prelude::*;
 
 #[allow(unused_macros)]
@@ -41,6 +42,11 @@ pub enum Call<'a> {
     spec fn log(&self) -> Seq<Call<'static>>;
     spec fn out_register(&self, request: register::Request<'static>) -> Result<register::Response>;
     spec fn out_authenticate(&self, request: authenticate::Request<'static>) -> Result<authenticate::Response>;
+    /// what this authenticator's `version()` returns (it may override the default)
+    spec fn out_version() -> [u8; 6];
+@*/
+/*@contract version
+        ensures r == Self::out_version(),
 @*/
 /*@contract register
         ensures final(self).log() == old(self).log().push(Call::Register(*request)), r == old(self).out_register(*request),
@@ -62,10 +68,11 @@ pub enum Call<'a> {
                     Ok(x) => Ok::<Response, Error>(Response::Register(x)), Err(e) => Err(e) }),
                 Request::Authenticate(p) => r == (match old(self).out_authenticate(p) {
                     Ok(x) => Ok::<Response, Error>(Response::Authenticate(x)), Err(e) => Err(e) }),
-                Request::Version => r is Ok && r->Ok_0 is Version,
+                // Version cannot fail and carries what the authenticator's own `version()` returns
+                Request::Version => r == Ok::<Response, Error>(Response::Version(Self::out_version())),
             },
 @*/
-//@extract src/ctap1.rs :: ^pub trait Authenticator \{ :: inject=Authenticator :: contracts=register,authenticate,call_ctap1
+//@extract src/ctap1.rs :: ^pub trait Authenticator \{ :: inject=Authenticator :: drop-body=version :: contracts=register,authenticate,version,call_ctap1
 
 //@extract src/lib.rs :: ^pub trait Rpc<Error, Request, Response>
 /*@contract call
@@ -80,7 +87,7 @@ pub enum Call<'a> {
                     Ok(x) => Ok::<Response, Error>(Response::Register(x)), Err(e) => Err(e) }),
                 Request::Authenticate(p) => r == (match old(self).out_authenticate(p) {
                     Ok(x) => Ok::<Response, Error>(Response::Authenticate(x)), Err(e) => Err(e) }),
-                Request::Version => r is Ok && r->Ok_0 is Version,
+                Request::Version => r == Ok::<Response, Error>(Response::Version(A::out_version())),
             },
 @*/
 //@extract src/ctap1.rs :: ^impl<A: Authenticator> crate::Rpc<Error, Request<'_>, Response> for A :: contracts=call
